@@ -21,9 +21,20 @@ pub struct CrashCase {
     pub cmd: Cmd,
 }
 
-pub const FAMILIES: [&str; 9] = ["mnemonic", "path-index", "signature", "digest", "transaction", "typeddata", "hex", "new-args", "message"];
+pub const FAMILIES: [&str; 9] = [
+    "mnemonic",
+    "path-index",
+    "signature",
+    "digest",
+    "transaction",
+    "typeddata",
+    "hex",
+    "new-args",
+    "message",
+];
 
-pub const GANACHE: &str = "myth like bonus scare over problem client lizard pioneer submit female collect";
+pub const GANACHE: &str =
+    "myth like bonus scare over problem client lizard pioneer submit female collect";
 
 impl CrashCase {
     pub fn run(&self, ctx: &Ctx, dir: &Path) -> Result<RunReport, HarnessError> {
@@ -33,7 +44,8 @@ impl CrashCase {
         }
         let o = exec(ctx, dir, &self.cmd)?;
         rep.procs = 1;
-        rep.fault_free = self.cmd.rplan.is_empty() && self.cmd.fplan.is_empty() && self.cmd.wplan.is_empty();
+        rep.fault_free =
+            self.cmd.rplan.is_empty() && self.cmd.fplan.is_empty() && self.cmd.wplan.is_empty();
         let fr = iogen::fired(&o.io, 'R');
         let ff = iogen::fired(&o.io, 'F');
         let fw = iogen::fired(&o.io, 'W');
@@ -50,27 +62,64 @@ impl CrashCase {
         rep.fault("stdout_eintr", e, fw.eintr);
         rep.syscalls = fr.calls + ff.calls + fw.calls + o.ent.len() as u64;
         let argv = self.cmd.argv.join(" ");
-        let argv = if argv.len() > 300 { format!("{}…", &argv[..argv.char_indices().take(300).last().map(|(i, _)| i).unwrap_or(0)]) } else { argv };
+        let argv = if argv.len() > 300 {
+            format!(
+                "{}…",
+                &argv[..argv
+                    .char_indices()
+                    .take(300)
+                    .last()
+                    .map(|(i, _)| i)
+                    .unwrap_or(0)]
+            )
+        } else {
+            argv
+        };
         let outcome_class = match &o.status {
             Status::Exit(0) => "ok",
             Status::Exit(2) => "usage",
             Status::Exit(255) => "error",
             Status::Exit(101) => {
                 let (loc, msg) = o.panic_site().unwrap_or_default();
-                rep.violate("C17", "panic", panic_fingerprint(&loc, &msg), format!("[E1] `{argv}` ({}): panicked at {loc}: {msg}", self.family));
+                rep.violate(
+                    "C17",
+                    "panic",
+                    panic_fingerprint(&loc, &msg),
+                    format!("[E1] `{argv}` ({}): panicked at {loc}: {msg}", self.family),
+                );
                 "panic"
             }
             Status::Exit(c) => {
-                rep.violate("C17", "abort", format!("{}|exit {c}", self.family), format!("[E1] `{argv}`: unexpected exit status {c}"));
+                rep.violate(
+                    "C17",
+                    "abort",
+                    format!("{}|exit {c}", self.family),
+                    format!("[E1] `{argv}`: unexpected exit status {c}"),
+                );
                 "other"
             }
             Status::Signal(s) => {
-                let what = o.stderr.lines().find(|l| l.contains("overflow") || l.contains("abort")).unwrap_or("").to_string();
-                rep.violate("C17", "abort", format!("{}|signal {s}", self.family), format!("[E1] `{argv}`: killed by signal {s} {what}"));
+                let what = o
+                    .stderr
+                    .lines()
+                    .find(|l| l.contains("overflow") || l.contains("abort"))
+                    .unwrap_or("")
+                    .to_string();
+                rep.violate(
+                    "C17",
+                    "abort",
+                    format!("{}|signal {s}", self.family),
+                    format!("[E1] `{argv}`: killed by signal {s} {what}"),
+                );
                 "signal"
             }
             Status::Timeout => {
-                rep.violate("C17", "hang", format!("{}|timeout", self.family), format!("[E1] `{argv}`: still running after the wall-clock limit"));
+                rep.violate(
+                    "C17",
+                    "hang",
+                    format!("{}|timeout", self.family),
+                    format!("[E1] `{argv}`: still running after the wall-clock limit"),
+                );
                 "timeout"
             }
         };
@@ -204,7 +253,14 @@ fn shrink_json(v: &serde_json::Value, out: &mut Vec<serde_json::Value>, budget: 
         }
         V::String(s) if s.len() > 4 => {
             *budget = budget.saturating_sub(1);
-            out.push(V::String(s[..s.char_indices().nth(s.chars().count() / 2).map(|(i, _)| i).unwrap_or(0)].to_string()));
+            out.push(V::String(
+                s[..s
+                    .char_indices()
+                    .nth(s.chars().count() / 2)
+                    .map(|(i, _)| i)
+                    .unwrap_or(0)]
+                    .to_string(),
+            ));
         }
         _ => {}
     }
@@ -234,7 +290,8 @@ fn shrink_bytes(data: &[u8]) -> Vec<Vec<u8>> {
 
 pub const SECP_N: &str = "fffffffffffffffffffffffffffffffebaaedce6af48a03bbfd25e8cd0364141";
 pub const SECP_N_MINUS_1: &str = "fffffffffffffffffffffffffffffffebaaedce6af48a03bbfd25e8cd0364140";
-pub const TWO_256: &str = "115792089237316195423570985008687907853269984665640564039457584007913129639936";
+pub const TWO_256: &str =
+    "115792089237316195423570985008687907853269984665640564039457584007913129639936";
 
 fn pow2(k: u32) -> U256 {
     if k >= 256 {
@@ -262,7 +319,11 @@ pub fn boundary_number(rng: &mut Rng) -> String {
             0 => rng.below(41),
             _ => rng.below(4),
         } as u128);
-        let v = if rng.coin() || base > U256::MAX - 41 { base - d.min(base) } else { base + d };
+        let v = if rng.coin() || base > U256::MAX - 41 {
+            base - d.min(base)
+        } else {
+            base + d
+        };
         return match rng.below(3) {
             0 => dec(v),
             1 => format!("\"0x{v:x}\""),
@@ -332,32 +393,70 @@ pub fn gen_transaction(rng: &mut Rng, mostly_valid: bool) -> String {
     let mut f: Vec<(String, String)> = Vec::new();
     let mut put = |k: &str, v: String| f.push((k.to_string(), v));
     let wild = |rng: &mut Rng| !mostly_valid || rng.chance(1, 6);
-    let n = |rng: &mut Rng, sane: u64| if wild(rng) { num_field(rng, sane) } else { format!("{}", rng.below(sane)) };
+    let n = |rng: &mut Rng, sane: u64| {
+        if wild(rng) {
+            num_field(rng, sane)
+        } else {
+            format!("{}", rng.below(sane))
+        }
+    };
     put("nonce", n(rng, 1000));
     put("gas", n(rng, 10_000_000));
     put("value", n(rng, 1 << 60));
-    put("data", if wild(rng) { hex_data(rng) } else { format!("\"0x{}\"", hex::encode(rng.bytes_between(0, 40))) });
+    put(
+        "data",
+        if wild(rng) {
+            hex_data(rng)
+        } else {
+            format!("\"0x{}\"", hex::encode(rng.bytes_between(0, 40)))
+        },
+    );
     if rng.chance(4, 5) {
-        put("to", if wild(rng) { address_text(rng) } else { format!("\"{}\"", rm::eip55(&rng.bytes(20).try_into().unwrap())) });
+        put(
+            "to",
+            if wild(rng) {
+                address_text(rng)
+            } else {
+                format!("\"{}\"", rm::eip55(&rng.bytes(20).try_into().unwrap()))
+            },
+        );
     }
     match kind {
         0 => {
             put("gasPrice", n(rng, 1 << 40));
             if rng.chance(4, 5) {
-                let c = if rng.chance(1, 3) { boundary_number(rng) } else { n(rng, 100_000) };
+                let c = if rng.chance(1, 3) {
+                    boundary_number(rng)
+                } else {
+                    n(rng, 100_000)
+                };
                 put("chainId", c);
             }
         }
         1 => {
             put("gasPrice", n(rng, 1 << 40));
-            put("chainId", if rng.chance(1, 4) { boundary_number(rng) } else { n(rng, 100_000) });
+            put(
+                "chainId",
+                if rng.chance(1, 4) {
+                    boundary_number(rng)
+                } else {
+                    n(rng, 100_000)
+                },
+            );
             let w = wild(rng);
             put("accessList", gen_access_list(rng, w));
         }
         _ => {
             put("maxPriorityFeePerGas", n(rng, 1 << 40));
             put("maxFeePerGas", n(rng, 1 << 40));
-            put("chainId", if rng.chance(1, 4) { boundary_number(rng) } else { n(rng, 100_000) });
+            put(
+                "chainId",
+                if rng.chance(1, 4) {
+                    boundary_number(rng)
+                } else {
+                    n(rng, 100_000)
+                },
+            );
             if rng.coin() {
                 let w = wild(rng);
                 put("accessList", gen_access_list(rng, w));
@@ -400,7 +499,11 @@ fn gen_access_list(rng: &mut Rng, wild: bool) -> String {
                     }
                 })
                 .collect();
-            format!("{{\"address\":\"0x{}\",\"storageKeys\":[{}]}}", hex::encode(rng.bytes(20)), keys.join(","))
+            format!(
+                "{{\"address\":\"0x{}\",\"storageKeys\":[{}]}}",
+                hex::encode(rng.bytes(20)),
+                keys.join(",")
+            )
         })
         .collect();
     format!("[{}]", items.join(","))
@@ -449,8 +552,9 @@ pub fn gen_signature_text(rng: &mut Rng) -> String {
 }
 
 const ATOMS: [&str; 24] = [
-    "bool", "address", "bytes", "string", "bytes1", "bytes32", "bytes0", "bytes33", "uint8", "uint256", "uint7", "uint0", "uint264", "int8", "int256",
-    "int128", "uint", "int", "bytes١", "uint08", "uint 8", "", "uint256 ", "Uint8",
+    "bool", "address", "bytes", "string", "bytes1", "bytes32", "bytes0", "bytes33", "uint8",
+    "uint256", "uint7", "uint0", "uint264", "int8", "int256", "int128", "uint", "int", "bytes١",
+    "uint08", "uint 8", "", "uint256 ", "Uint8",
 ];
 
 fn gen_type_name(rng: &mut Rng, structs: &[String], depth_budget: usize) -> String {
@@ -485,16 +589,27 @@ fn gen_type_name(rng: &mut Rng, structs: &[String], depth_budget: usize) -> Stri
     t
 }
 
-fn gen_value_for(rng: &mut Rng, ty: &str, types: &[(String, Vec<(String, String)>)], depth: usize) -> String {
+fn gen_value_for(
+    rng: &mut Rng,
+    ty: &str,
+    types: &[(String, Vec<(String, String)>)],
+    depth: usize,
+) -> String {
     if rng.chance(1, 10) {
         // type-confused value
         return ["null", "1", "\"x\"", "[]", "{}", "true", "-1", "1.5"][rng.usize_below(8)].into();
     }
     if let Some(inner) = ty.strip_suffix(']').and_then(|t| t.rsplit_once('[')) {
         let (elem, n) = inner;
-        let count = n.parse::<usize>().ok().filter(|c| *c < 4).unwrap_or_else(|| rng.range(0, 2) as usize);
+        let count = n
+            .parse::<usize>()
+            .ok()
+            .filter(|c| *c < 4)
+            .unwrap_or_else(|| rng.range(0, 2) as usize);
         let count = if depth > 70 { count.min(1) } else { count };
-        let items: Vec<String> = (0..count).map(|_| gen_value_for(rng, elem, types, depth + 1)).collect();
+        let items: Vec<String> = (0..count)
+            .map(|_| gen_value_for(rng, elem, types, depth + 1))
+            .collect();
         return format!("[{}]", items.join(","));
     }
     if let Some((_, members)) = types.iter().find(|(n, _)| n == ty) {
@@ -507,13 +622,21 @@ fn gen_value_for(rng: &mut Rng, ty: &str, types: &[(String, Vec<(String, String)
             if stop || rng.chance(1, 25) {
                 continue;
             }
-            fields.push(format!("{}:{}", serde_json::to_string(name).unwrap(), gen_value_for(rng, t, types, depth + 1)));
+            fields.push(format!(
+                "{}:{}",
+                serde_json::to_string(name).unwrap(),
+                gen_value_for(rng, t, types, depth + 1)
+            ));
         }
         return format!("{{{}}}", fields.join(","));
     }
     if ty.starts_with("uint") || ty.starts_with("int") {
         let signed = ty.starts_with("int");
-        let bits: u32 = ty.trim_start_matches("uint").trim_start_matches("int").parse().unwrap_or(256);
+        let bits: u32 = ty
+            .trim_start_matches("uint")
+            .trim_start_matches("int")
+            .parse()
+            .unwrap_or(256);
         let bits = bits.clamp(1, 256);
         return match rng.below(12) {
             0 => "0".into(),
@@ -556,8 +679,18 @@ fn gen_value_for(rng: &mut Rng, ty: &str, types: &[(String, Vec<(String, String)
 
 pub fn gen_typed_data(rng: &mut Rng, mostly_valid: bool) -> String {
     let domain_members: Vec<(String, String)> = {
-        let all = [("name", "string"), ("version", "string"), ("chainId", "uint256"), ("verifyingContract", "address"), ("salt", "bytes32")];
-        let mut m: Vec<(String, String)> = all.iter().filter(|_| rng.chance(3, 4)).map(|(a, b)| (a.to_string(), b.to_string())).collect();
+        let all = [
+            ("name", "string"),
+            ("version", "string"),
+            ("chainId", "uint256"),
+            ("verifyingContract", "address"),
+            ("salt", "bytes32"),
+        ];
+        let mut m: Vec<(String, String)> = all
+            .iter()
+            .filter(|_| rng.chance(3, 4))
+            .map(|(a, b)| (a.to_string(), b.to_string()))
+            .collect();
         if !mostly_valid {
             match rng.below(6) {
                 0 => m.clear(),
@@ -582,8 +715,11 @@ pub fn gen_typed_data(rng: &mut Rng, mostly_valid: bool) -> String {
         m
     };
     let nstructs = rng.range(1, 4) as usize;
-    let names: Vec<String> = (0..nstructs).map(|i| ["Mail", "Person", "Group", "Node"][i].to_string()).collect();
-    let mut types: Vec<(String, Vec<(String, String)>)> = vec![("EIP712Domain".into(), domain_members)];
+    let names: Vec<String> = (0..nstructs)
+        .map(|i| ["Mail", "Person", "Group", "Node"][i].to_string())
+        .collect();
+    let mut types: Vec<(String, Vec<(String, String)>)> =
+        vec![("EIP712Domain".into(), domain_members)];
     for n in &names {
         let members: Vec<(String, String)> = (0..rng.range(0, 4))
             .map(|i| {
@@ -593,19 +729,40 @@ pub fn gen_typed_data(rng: &mut Rng, mostly_valid: bool) -> String {
             .collect();
         types.push((n.clone(), members));
     }
-    let primary = if rng.chance(1, 15) { "Nope".to_string() } else { names[0].clone() };
+    let primary = if rng.chance(1, 15) {
+        "Nope".to_string()
+    } else {
+        names[0].clone()
+    };
     let types_json: Vec<String> = types
         .iter()
         .filter(|(n, _)| mostly_valid || n != "EIP712Domain" || !rng.chance(1, 12))
         .map(|(n, ms)| {
-            let ms: Vec<String> = ms.iter().map(|(a, b)| format!("{{\"name\":{},\"type\":{}}}", serde_json::to_string(a).unwrap(), serde_json::to_string(b).unwrap())).collect();
+            let ms: Vec<String> = ms
+                .iter()
+                .map(|(a, b)| {
+                    format!(
+                        "{{\"name\":{},\"type\":{}}}",
+                        serde_json::to_string(a).unwrap(),
+                        serde_json::to_string(b).unwrap()
+                    )
+                })
+                .collect();
             format!("\"{n}\":[{}]", ms.join(","))
         })
         .collect();
     let domain = gen_value_for(rng, "EIP712Domain", &types, 0);
     let message = gen_value_for(rng, &primary, &types, 0);
-    let message = if message.starts_with('{') { message } else { "{}".into() };
-    let domain = if domain.starts_with('{') { domain } else { "{}".into() };
+    let message = if message.starts_with('{') {
+        message
+    } else {
+        "{}".into()
+    };
+    let domain = if domain.starts_with('{') {
+        domain
+    } else {
+        "{}".into()
+    };
     format!("{{\"types\":{{{}}},\"primaryType\":\"{primary}\",\"domain\":{domain},\"message\":{message}}}", types_json.join(","))
 }
 
@@ -643,9 +800,15 @@ fn gen_phrase(rng: &mut Rng) -> String {
     let words = rm::wordlist();
     let mut ws: Vec<String> = if rm::entropy_len(n).is_some() && rng.chance(2, 3) {
         // valid checksum
-        rm::bip39_encode(&rng.bytes(n * 4 / 3)).unwrap().split(' ').map(String::from).collect()
+        rm::bip39_encode(&rng.bytes(n * 4 / 3))
+            .unwrap()
+            .split(' ')
+            .map(String::from)
+            .collect()
     } else {
-        (0..n).map(|_| words[rng.usize_below(2048)].to_string()).collect()
+        (0..n)
+            .map(|_| words[rng.usize_below(2048)].to_string())
+            .collect()
     };
     if !ws.is_empty() {
         match rng.below(12) {
@@ -694,7 +857,10 @@ pub fn gen_crash_case(rng: &mut Rng) -> CrashCase {
         } else {
             cmd.argv.push("in.json".into());
             cmd.fplan = iogen::benign_plan(rng, data.len());
-            cmd.files.push(NamedFile { name: "in.json".into(), data });
+            cmd.files.push(NamedFile {
+                name: "in.json".into(),
+                data,
+            });
         }
     };
     match fam {
@@ -716,8 +882,22 @@ pub fn gen_crash_case(rng: &mut Rng) -> CrashCase {
             cmd.argv = vec![sub.into()];
             acct(rng, &mut cmd);
             let nums = [
-                "0", "1", "2147483647", "2147483648", "2147483649", "4294967295", "4294967296", "4294967297", "18446744073709551615", "18446744073709551616",
-                "-1", "+1", "", "1e3", "0x10", " 1",
+                "0",
+                "1",
+                "2147483647",
+                "2147483648",
+                "2147483649",
+                "4294967295",
+                "4294967296",
+                "4294967297",
+                "18446744073709551615",
+                "18446744073709551616",
+                "-1",
+                "+1",
+                "",
+                "1e3",
+                "0x10",
+                " 1",
             ];
             if rng.coin() {
                 let v = rng.pick(&nums).to_string();
@@ -794,7 +974,14 @@ pub fn gen_crash_case(rng: &mut Rng) -> CrashCase {
                 if rng.coin() {
                     cmd.argv.push("--signature".into());
                     // a well-formed signature so that encoding with huge chain ids is reached
-                    cmd.argv.push(format!("{}{}{}", hex::encode(rng.bytes(31)).replace(' ', ""), "01", hex::encode(rng.bytes(32))) + if rng.coin() { "1b" } else { "1c" });
+                    cmd.argv.push(
+                        format!(
+                            "{}{}{}",
+                            hex::encode(rng.bytes(31)).replace(' ', ""),
+                            "01",
+                            hex::encode(rng.bytes(32))
+                        ) + if rng.coin() { "1b" } else { "1c" },
+                    );
                 }
             }
             input(rng, &mut cmd, tx.into_bytes());
@@ -824,7 +1011,9 @@ pub fn gen_crash_case(rng: &mut Rng) -> CrashCase {
             let n = rng.range(0, 300) as usize;
             let data = match rng.below(3) {
                 0 => rng.bytes(n),
-                1 => (0..n).map(|_| *rng.pick(b"0123456789abcdefABCDEFx \n\t")).collect(),
+                1 => (0..n)
+                    .map(|_| *rng.pick(b"0123456789abcdefABCDEFx \n\t"))
+                    .collect(),
                 _ => format!("0x{}", hex::encode(rng.bytes(n))).into_bytes(),
             };
             if rng.coin() {
@@ -832,7 +1021,10 @@ pub fn gen_crash_case(rng: &mut Rng) -> CrashCase {
                 cmd.stdin = Some(data);
             } else {
                 cmd.argv.push("in.json".into());
-                cmd.files.push(NamedFile { name: "in.json".into(), data });
+                cmd.files.push(NamedFile {
+                    name: "in.json".into(),
+                    data,
+                });
             }
             cmd.wplan = iogen::benign_plan(rng, n);
         }
@@ -841,27 +1033,49 @@ pub fn gen_crash_case(rng: &mut Rng) -> CrashCase {
             cmd.argv = vec!["new".into()];
             if rng.chance(2, 3) {
                 cmd.argv.push("-n".into());
-                cmd.argv.push(if rng.coin() { rng.range(0, 40).to_string() } else { (*rng.pick(&["-1", "", "1e1", "18446744073709551615", "18446744073709551616", "12 "])).to_string() });
+                cmd.argv.push(if rng.coin() {
+                    rng.range(0, 40).to_string()
+                } else {
+                    (*rng.pick(&[
+                        "-1",
+                        "",
+                        "1e1",
+                        "18446744073709551615",
+                        "18446744073709551616",
+                        "12 ",
+                    ]))
+                    .to_string()
+                });
             }
             if rng.coin() {
                 cmd.argv.push("--vanity-prefix".into());
-                cmd.argv.push((*rng.pick(&["0x", "0xA", "0xa", "0xG", "a", "", "0x０", "0xAbC"])).to_string());
+                cmd.argv.push(
+                    (*rng.pick(&["0x", "0xA", "0xa", "0xG", "a", "", "0x０", "0xAbC"])).to_string(),
+                );
                 cmd.argv.push("-j".into());
                 cmd.argv.push("0".into());
             }
             if rng.chance(1, 4) {
                 cmd.argv.push("--language".into());
-                cmd.argv.push((*rng.pick(&["english", "ENGLISH", "klingon", "", "İ"])).to_string());
+                cmd.argv
+                    .push((*rng.pick(&["english", "ENGLISH", "klingon", "", "İ"])).to_string());
             }
             // any value matches the empty prefix; digit prefixes get a tail planted for them
             let mut tail = rng.bytes(32);
             for (d, want) in [("0xA", "a"), ("0xa", "a"), ("0xAbC", "abc")] {
                 if cmd.argv.contains(&d.to_string()) {
-                    let len = cmd.argv.iter().position(|a| a == "-n").and_then(|i| cmd.argv.get(i + 1)).and_then(|l| l.parse::<usize>().ok()).unwrap_or(12);
+                    let len = cmd
+                        .argv
+                        .iter()
+                        .position(|a| a == "-n")
+                        .and_then(|i| cmd.argv.get(i + 1))
+                        .and_then(|l| l.parse::<usize>().ok())
+                        .unwrap_or(12);
                     if let Some(el) = rm::entropy_len(len) {
                         loop {
                             let cand = rng.bytes(el);
-                            if let Some(a) = rm::address_of_entropy(&cand, "", &rm::default_path(0)) {
+                            if let Some(a) = rm::address_of_entropy(&cand, "", &rm::default_path(0))
+                            {
                                 if rm::has_prefix(&a, want) {
                                     tail = cand;
                                     break;
@@ -898,26 +1112,66 @@ pub fn chain_boundary_case(idx: usize) -> CrashCase {
     let delta = (idx / 8) as i64 - 3;
     let k = idx % 8;
     let bound = (U256::MAX - 36) / 2;
-    let chain = if delta < 0 { bound - U256::new((-delta) as u128) } else { bound + U256::new(delta as u128) };
-    let spell = if k % 2 == 0 { format!("{chain}") } else { format!("\"0x{chain:x}\"") };
-    let tx = |nonce: usize| format!("{{\"chainId\":{spell},\"nonce\":{nonce},\"gasPrice\":1,\"gas\":21000,\"to\":\"0x0000000000000000000000000000000000000000\",\"value\":0,\"data\":\"0x\"}}");
+    let chain = if delta < 0 {
+        bound - U256::new((-delta) as u128)
+    } else {
+        bound + U256::new(delta as u128)
+    };
+    let spell = if k % 2 == 0 {
+        format!("{chain}")
+    } else {
+        format!("\"0x{chain:x}\"")
+    };
+    let tx = |nonce: usize| {
+        format!("{{\"chainId\":{spell},\"nonce\":{nonce},\"gasPrice\":1,\"gas\":21000,\"to\":\"0x0000000000000000000000000000000000000000\",\"value\":0,\"data\":\"0x\"}}")
+    };
     let r = "11".repeat(32);
     let sv = "22".repeat(32);
     let mut cmd = Cmd::default();
     match k {
         0 | 1 => {
-            cmd.argv = vec!["hash".into(), "transaction".into(), "--signature".into(), format!("{r}{sv}1b"), "in.json".into()];
-            cmd.files.push(NamedFile { name: "in.json".into(), data: tx(0).into_bytes() });
+            cmd.argv = vec![
+                "hash".into(),
+                "transaction".into(),
+                "--signature".into(),
+                format!("{r}{sv}1b"),
+                "in.json".into(),
+            ];
+            cmd.files.push(NamedFile {
+                name: "in.json".into(),
+                data: tx(0).into_bytes(),
+            });
         }
         2 | 3 => {
-            cmd.argv = vec!["hash".into(), "transaction".into(), "--signature".into(), format!("{r}{sv}1c"), "in.json".into()];
-            cmd.files.push(NamedFile { name: "in.json".into(), data: tx(0).into_bytes() });
+            cmd.argv = vec![
+                "hash".into(),
+                "transaction".into(),
+                "--signature".into(),
+                format!("{r}{sv}1c"),
+                "in.json".into(),
+            ];
+            cmd.files.push(NamedFile {
+                name: "in.json".into(),
+                data: tx(0).into_bytes(),
+            });
         }
         _ => {
             // signing: the parity depends on the message, so several nonces
-            cmd.argv = vec!["sign".into(), "--mnemonic".into(), GANACHE.into(), "transaction".into(), "in.json".into()];
-            cmd.files.push(NamedFile { name: "in.json".into(), data: tx(k - 4 + 2 * (idx / 8)).into_bytes() });
+            cmd.argv = vec![
+                "sign".into(),
+                "--mnemonic".into(),
+                GANACHE.into(),
+                "transaction".into(),
+                "in.json".into(),
+            ];
+            cmd.files.push(NamedFile {
+                name: "in.json".into(),
+                data: tx(k - 4 + 2 * (idx / 8)).into_bytes(),
+            });
         }
     }
-    CrashCase { family: "transaction".into(), cmd }
+    CrashCase {
+        family: "transaction".into(),
+        cmd,
+    }
 }
